@@ -52,6 +52,7 @@ def check(run):
                  prog, ist, True)
     from .copylib import copy_protocol
     copy_protocol(run, prog, ist)           # a copied window keeps its capacity and contents
+    c06.depends_on(run, "C14", {"WIRING"})  # the baseline / last chain element go through the default wrappers' batch path
 
 
 def _batch(run, prog, cls, method, original):
